@@ -13,7 +13,7 @@
     PARTIAL at line level for those. *)
 From Coq Require Import List NArith Bool.
 Import ListNotations.
-From RV Require Import Lib.Str Lib.Regex Gen.GenRegex Model.Adapters Proofs.AdaptersP Proofs.RegexP Proofs.AdapterLinesP.
+From RV Require Import Lib.Str Lib.Regex Gen.GenRegex Model.Adapters Proofs.AdaptersP Proofs.RegexP Proofs.AdapterLinesP Proofs.RebenchLineP Proofs.ValidationLineP.
 
 Theorem C05_fold_exact :
   forall is_err stop classify (items : list (item)),
@@ -74,6 +74,59 @@ Theorem C05_line_jmh :
     = LClose [mk_meas s_total (strip U unit) (VFloat (ip ++ [46%N] ++ fp))].
 Proof. exact jmh_line_classified. Qed.
 Print Assumptions C05_line_jmh.
+
+(** Line level, RebenchLogAdapter: "<name>: iterations=<n> runtime: <int>ms" (or "us").  The expression starts with
+    the optional greedy prefix "(?:.*: )?", which matches twice inside such a line; the theorem shows that every way of
+    taking it leaves a rest the remainder rejects, so the best match is the one the adapter expects - for names without
+    white space, numerals of any length and every Unicode classification. *)
+Theorem C05_line_rebenchlog :
+  forall U name ds ip u,
+    rbl_name_ok U name -> digits ds -> digits ip -> unit_ok u ->
+    rbl_classify U (rbl_line name ds ip u)
+    = LClose [mk_meas s_total s_ms (if (u =? 117)%N then VFloatDiv1000 ip else VFloat ip)].
+Proof. exact rbl_line_classified. Qed.
+Print Assumptions C05_line_rebenchlog.
+
+(** ... and any sequence of such lines with noise lines anywhere is parsed into exactly one data point per line. *)
+Theorem C05_rebenchlog_exact :
+  forall U faulty (xs : list rbl_item),
+    Forall (rbl_item_ok U faulty) xs -> flat_map rbl_item_dp xs <> [] ->
+    loop (common_err U faulty rbl_errs) (fun _ => false) (rbl_classify U) (map rbl_item_line xs) [] []
+    = POk (flat_map rbl_item_dp xs).
+Proof. exact rbl_iterations_exact. Qed.
+Print Assumptions C05_rebenchlog_exact.
+
+(** Line level, ValidationLogAdapter: "<name>: iterations=<n> runtime: <int>ms success: true" (or us / false); the
+    optional prefix matches three times inside such a line and is backtracked out of every time. *)
+Theorem C05_line_validationlog :
+  forall U name ds ip u b,
+    name_ok U name -> digits ds -> digits ip -> unit_ok u -> bool_ok b ->
+    val_classify U (val_line name ds ip u b)
+    = LClose [mk_meas s_Success s_bool (VBool (str_eqb b s_true));
+              mk_meas s_total s_ms (if (u =? 117)%N then VFloatDiv1000 ip else VFloat ip)].
+Proof. exact val_line_classified. Qed.
+Print Assumptions C05_line_validationlog.
+
+Theorem C05_validationlog_exact :
+  forall U faulty (xs : list val_item),
+    Forall (val_item_ok U faulty) xs -> flat_map val_item_dp xs <> [] ->
+    loop (common_err U faulty val_errs) (fun _ => false) (val_classify U) (map val_item_line xs) [] []
+    = POk (flat_map val_item_dp xs).
+Proof. exact val_iterations_exact. Qed.
+Print Assumptions C05_validationlog_exact.
+
+Example C05_validationlog_example :
+  let i := {| vi_name := [70;105;98;46;120]%N; vi_ds := [49;48]%N; vi_ip := [49;50;51;52]%N; vi_u := 109%N; vi_b := s_false |} in
+  common_err palette false val_errs (val_render i) = false
+  /\ val_classify palette (val_render i) = LClose [mk_meas s_Success s_bool (VBool false); mk_meas s_total s_ms (VFloat [49;50;51;52]%N)].
+Proof. vm_compute. split; reflexivity. Qed.
+
+(** Non-vacuity: "Fib.x: iterations=10 runtime: 1234us" meets the hypotheses (no failure marker either). *)
+Example C05_rebenchlog_example :
+  let i := {| ri_name := [70;105;98;46;120]%N; ri_ds := [49;48]%N; ri_ip := [49;50;51;52]%N; ri_u := 117%N |} in
+  common_err palette false rbl_errs (rbl_render i) = false
+  /\ rbl_classify palette (rbl_render i) = LClose [mk_meas s_total s_ms (VFloatDiv1000 [49;50;51;52]%N)].
+Proof. vm_compute. split; reflexivity. Qed.
 
 (** Non-vacuity of the line theorems: "Fib.x  Iteration-12:\t3.250 ms" and "max rss (kb): 2048". *)
 Example C05_line_example :
